@@ -60,6 +60,8 @@ type DB struct {
 	chooseVictim func(n int) int
 	// onTaintedCommit is told when a transaction commits state the typed rows could not represent
 	onTaintedCommit func(reason string)
+	// onDeadlockVictim is told which task's statement was aborted to break a wait-for cycle
+	onDeadlockVictim func(task string)
 }
 
 type advLock struct {
@@ -409,6 +411,9 @@ func (s *Session) stmt(task string, fn func() error) error {
 	if s.victim {
 		s.victim = false
 		s.waitRow, s.waitAdv = nil, ""
+		if db.onDeadlockVictim != nil {
+			db.onDeadlockVictim(task)
+		}
 		if s.implicit {
 			s.implicit = false
 			s.rollbackAllLocked()
@@ -449,6 +454,9 @@ func (s *Session) stmt(task string, fn func() error) error {
 		}
 		if victim {
 			s.waitRow, s.waitAdv = nil, ""
+			if db.onDeadlockVictim != nil {
+				db.onDeadlockVictim(task)
+			}
 			err = pgErr("40P01", "deadlock detected", "")
 			if implicit {
 				s.implicit = false
